@@ -22,7 +22,7 @@ use rand::SeedableRng;
 use rand::rngs::StdRng;
 use serde_json::{Value, json};
 
-use crate::cases::{CaseReport, load_tagged};
+use crate::cases::CaseReport;
 use crate::world::{World, hash_bytes};
 
 const SIG: usize = 96;
@@ -320,101 +320,157 @@ fn run_one(bytes: &[u8], want_vote: bool, epoch: &EpochInfo) -> String {
     }
 }
 
-pub fn replay(path: &str, stakes: &[u64], seed: u64, sample: Option<usize>, threads: usize) -> anyhow::Result<Value> {
-    let mut cases = load_tagged(path, "CASE")?;
-    let total = cases.len();
-    // sampling (thorough tier, pairs of mutations): classes with a fixed verdict are always kept
-    if let Some(k) = sample {
-        let mut x: u64 = (seed ^ 0x5A3C_0909_1234_5678) | 1;
-        let mut next = move || {
-            x ^= x << 13;
-            x ^= x >> 7;
-            x ^= x << 17;
-            x
-        };
-        let any = cases.iter().filter(|c| c["cls"] == "any").count();
-        if any > k {
-            let thr = ((k as u128) << 32) / any as u128;
-            cases.retain(|c| c["cls"] != "any" || ((next() >> 32) as u128) < thr);
-        }
+/// Reads the `<<"CASE", "{json}">>` lines of a TLC output file in batches.
+struct CaseReader {
+    rdr: std::io::BufReader<std::fs::File>,
+}
+
+impl CaseReader {
+    fn open(path: &str) -> anyhow::Result<Self> {
+        Ok(Self { rdr: std::io::BufReader::with_capacity(1 << 20, std::fs::File::open(path)?) })
     }
+
+    fn next_batch(&mut self, max: usize) -> anyhow::Result<Vec<Value>> {
+        use std::io::BufRead;
+        let prefix = "<<\"CASE\", \"";
+        let mut out = Vec::new();
+        let mut line = String::new();
+        while out.len() < max {
+            line.clear();
+            if self.rdr.read_line(&mut line)? == 0 {
+                break;
+            }
+            let l = line.trim_end_matches(['\n', '\r']);
+            let Some(rest) = l.strip_prefix(prefix) else {
+                continue;
+            };
+            let Some(rest) = rest.strip_suffix("\">>") else {
+                anyhow::bail!("malformed CASE line");
+            };
+            // the JSON of the cases contains no escapes other than \" and \\
+            let mut s = String::with_capacity(rest.len());
+            let mut chars = rest.chars();
+            while let Some(c) = chars.next() {
+                if c == '\\' {
+                    match chars.next() {
+                        Some(o) => s.push(o),
+                        None => anyhow::bail!("malformed CASE line"),
+                    }
+                } else {
+                    s.push(c);
+                }
+            }
+            out.push(serde_json::from_str(&s)?);
+        }
+        Ok(out)
+    }
+}
+
+fn digest(b: &[u8]) -> String {
+    use std::hash::{Hash, Hasher};
+    let mut h1 = std::collections::hash_map::DefaultHasher::new();
+    b.hash(&mut h1);
+    let mut h2 = std::collections::hash_map::DefaultHasher::new();
+    (0xC09u64, b).hash(&mut h2);
+    format!("{:016x}{:016x}", h1.finish(), h2.finish())
+}
+
+pub fn replay(path: &str, stakes: &[u64], seed: u64, threads: usize) -> anyhow::Result<Value> {
     let mut d = AuthDriver::new(stakes, seed);
     let mut rep = CaseReport::new("auth");
     let mut selfcheck_failed: Vec<Value> = Vec::new();
     let mut selfchecked = 0u64;
-
-    // stage 1: concretise
-    let mut prepared: Vec<Prepared> = Vec::with_capacity(cases.len());
-    for (idx, c) in cases.iter().enumerate() {
-        let t = c["t"].as_str().expect("t");
-        let bytes = if t == "vote" { d.vote_bytes(&c["msg"]) } else { d.cert_bytes(&c["msg"]) };
-        let honest = c["label"] == "honest" || c["label"] == "id";
-        if honest {
-            let real = d.real_bytes(t, &c["msg"]);
-            selfchecked += 1;
-            if real != bytes && selfcheck_failed.len() < 5 {
-                selfcheck_failed.push(json!({"case": c, "assembled": crate::world::hex(&bytes),
-                                              "constructor": crate::world::hex(&real)}));
-            }
-        }
-        prepared.push(Prepared { idx, bytes });
-    }
-
-    // stage 2: run the implementation (parallel; panics are caught per case)
+    let mut total = 0u64;
+    let mut spec_hist: HashMap<String, u64> = HashMap::new();
+    let mut flags: HashMap<String, u64> = HashMap::new();
     let epoch = d.world.epoch.clone();
     let threads = threads.max(1);
-    let chunk = prepared.len().div_ceil(threads).max(1);
-    let mut verdicts: Vec<String> = vec![String::new(); cases.len()];
-    std::thread::scope(|sc| {
-        let mut hs = Vec::new();
-        for part in prepared.chunks(chunk) {
-            let epoch = &epoch;
-            let cases = &cases;
-            hs.push(sc.spawn(move || {
-                part.iter()
-                    .map(|p| (p.idx, run_one(&p.bytes, cases[p.idx]["t"] == "vote", epoch)))
-                    .collect::<Vec<_>>()
-            }));
+    let mut reader = CaseReader::open(path)?;
+    loop {
+        let cases = reader.next_batch(20_000)?;
+        if cases.is_empty() {
+            break;
         }
-        for h in hs {
-            for (i, v) in h.join().expect("worker") {
-                verdicts[i] = v;
-            }
-        }
-    });
+        total += cases.len() as u64;
 
-    // stage 3: compare with the spec's verdict
-    let mut bytes_seen = std::collections::HashSet::new();
-    for p in &prepared {
-        let c = &cases[p.idx];
-        let obs = &verdicts[p.idx];
-        let t = c["t"].as_str().expect("t");
-        let label = c["label"].as_str().expect("label");
-        let admit = c["admit"].as_bool().expect("admit");
-        let stage = obs.split(':').next().unwrap_or("");
-        rep.case(&format!("{t}:{label}:{obs}"), crate::world::hex(&p.bytes), c);
-        bytes_seen.insert(p.bytes.clone());
-        let ok = match stage {
-            "admitted" => admit,
-            "refused" => !admit,
-            _ => false, // panic or harness problem
-        };
-        if !ok {
-            let fp = format!("{t}:{label}|{}", if stage == "refused" || stage == "admitted" { stage } else { obs.as_str() });
-            rep.diverge(
-                &fp,
-                &["admit"],
-                &json!({"case": c, "wire": crate::world::hex(&p.bytes)}),
-                json!(if admit { "admitted" } else { "refused with an error" }),
-                json!(obs),
-            );
+        // stage 1: concretise
+        let mut prepared: Vec<Prepared> = Vec::with_capacity(cases.len());
+        for (idx, c) in cases.iter().enumerate() {
+            let t = c["t"].as_str().expect("t");
+            let bytes = if t == "vote" { d.vote_bytes(&c["msg"]) } else { d.cert_bytes(&c["msg"]) };
+            if c["label"] == "honest" || c["label"] == "id" {
+                // the spec's honest constructor against the real constructor
+                let real = d.real_bytes(t, &c["msg"]);
+                selfchecked += 1;
+                if real != bytes && selfcheck_failed.len() < 5 {
+                    selfcheck_failed.push(json!({"case": c, "assembled": crate::world::hex(&bytes),
+                                                  "constructor": crate::world::hex(&real)}));
+                }
+            }
+            prepared.push(Prepared { idx, bytes });
+        }
+
+        // stage 2: run the implementation (parallel; panics are caught per case)
+        let chunk = prepared.len().div_ceil(threads).max(1);
+        let mut verdicts: Vec<String> = vec![String::new(); cases.len()];
+        std::thread::scope(|sc| {
+            let mut hs = Vec::new();
+            for part in prepared.chunks(chunk) {
+                let epoch = &epoch;
+                let cases = &cases;
+                hs.push(sc.spawn(move || {
+                    part.iter()
+                        .map(|p| (p.idx, run_one(&p.bytes, cases[p.idx]["t"] == "vote", epoch)))
+                        .collect::<Vec<_>>()
+                }));
+            }
+            for h in hs {
+                for (i, v) in h.join().expect("worker") {
+                    verdicts[i] = v;
+                }
+            }
+        });
+
+        // stage 3: compare with the spec's verdict
+        for p in &prepared {
+            let c = &cases[p.idx];
+            let obs = &verdicts[p.idx];
+            let t = c["t"].as_str().expect("t");
+            let label = c["label"].as_str().expect("label");
+            let cls = c["cls"].as_str().expect("cls");
+            let admit = c["admit"].as_bool().expect("admit");
+            let stage = obs.split(':').next().unwrap_or("");
+            rep.case(&format!("{t}:{label}:{obs}"), digest(&p.bytes), c);
+            *spec_hist.entry(format!("{t}|{label}|{cls}|{admit}")).or_default() += 1;
+            for f in ["dc", "mid", "oor"] {
+                if c["info"][f] == true {
+                    let kind = c["msg"]["k"].as_str().unwrap_or("");
+                    *flags.entry(format!("{f}|{kind}|{admit}")).or_default() += 1;
+                }
+            }
+            let ok = match stage {
+                "admitted" => admit,
+                "refused" => !admit,
+                _ => false, // panic or harness problem
+            };
+            if !ok {
+                let o = if stage == "refused" || stage == "admitted" { stage } else { obs.as_str() };
+                rep.diverge(
+                    &format!("{t}:{label}|{o}"),
+                    &["admit"],
+                    &json!({"case": c, "wire": crate::world::hex(&p.bytes)}),
+                    json!(if admit { "admitted" } else { "refused with an error" }),
+                    json!(obs),
+                );
+            }
         }
     }
     let mut out = rep.to_json();
     out["total_cases_in_dump"] = json!(total);
     out["selfchecked"] = json!(selfchecked);
     out["selfcheck_failed"] = json!(selfcheck_failed);
-    out["distinct_wire_messages"] = json!(bytes_seen.len());
+    out["spec_hist"] = json!(spec_hist);
+    out["flags"] = json!(flags);
     Ok(out)
 }
 
@@ -424,7 +480,7 @@ fn arg_after(args: &[String], name: &str) -> Option<String> {
         .and_then(|i| args.get(i + 1).cloned())
 }
 
-/// `replay-auth --tlc-out <file> --stakes 3,3,2,2 [--sample K] [--threads T] --seed S`
+/// `replay-auth --tlc-out <file> --stakes 3,3,2,2 [--threads T] --seed S`
 pub fn run(args: &[String], seed: u64) -> anyhow::Result<Value> {
     let path = arg_after(args, "--tlc-out").ok_or_else(|| anyhow::anyhow!("--tlc-out"))?;
     let stakes: Vec<u64> = arg_after(args, "--stakes")
@@ -432,7 +488,6 @@ pub fn run(args: &[String], seed: u64) -> anyhow::Result<Value> {
         .split(',')
         .map(|x| x.parse())
         .collect::<Result<_, _>>()?;
-    let sample = arg_after(args, "--sample").and_then(|s| s.parse().ok());
     let threads = arg_after(args, "--threads").and_then(|s| s.parse().ok()).unwrap_or(4);
-    replay(&path, &stakes, seed, sample, threads)
+    replay(&path, &stakes, seed, threads)
 }
